@@ -13,7 +13,7 @@
 #define VF_FAULTS
 #define CUT_CHECKFS
 #define VF_INCLUDE_IO_MANAGER
-#include "e2undo_pre.h"		/* (also pulls in the real lib/ext2fs/io_manager.c) */
+#include "e2undo_pre.h"		/* (does #include "lib/ext2fs/io_manager.c") */
 #include "misc/e2undo.c"
 #include "e2undo_env.h"
 
